@@ -453,8 +453,8 @@ func (w *World) solveOne(o *Obl, text string, opt SolveOpts) {
 }
 
 func (w *World) race(file, cfile, text string, opt SolveOpts) solverRes {
-	// stage 1: z3-new alone, short
-	quick := 3
+	// stage 1: z3-new alone, short (most obligations take milliseconds; what needs longer goes to the race at once)
+	quick := 1
 	if opt.Timeout < quick {
 		quick = opt.Timeout
 	}
